@@ -344,7 +344,7 @@ def leaves_overlap(model, l1, l2, version):
 
 
 def wild_sets_intersect(c1, c2):
-    (k1, a), (k2, b) = M.WILDCARD_SETS[c1], M.WILDCARD_SETS[c2]
+    (k1, a), (k2, b) = M.WILDCARD_SETS[M.con_base(c1)], M.WILDCARD_SETS[M.con_base(c2)]
     if k1 == 'in' and k2 == 'in':
         return bool(a & b)
     if k1 == 'in':
